@@ -5,6 +5,7 @@ from __future__ import annotations
 from collections import Counter
 
 import numpy as np
+from hypothesis import strategies as st
 
 from vlib import pyx
 from vlib.gen_detector import simple_spec
@@ -21,7 +22,8 @@ RULE = (
     "with extra columns before/after and an optional column_range), on the sequential and the dask (synchronous scheduler) "
     "path. The echo probes log the values they received and encode them into the pixel bucket. Oracle: multiset of applied "
     "states == reference space from itertools; for every reference run, selecting the result by its labels yields that run's "
-    "encoding. Non-trivial: >=2 enabled parameters, or a vector-valued one, or a disabled one present; distinct by JSON."
+    "encoding. Part 'rerun': the same Observation object is run again (1..2 times) after other values were configured on the "
+    "detector / pipeline through their keys; the later runs must follow the currently configured values. Non-trivial: >=2 enabled parameters, or a vector-valued one, or a disabled one present; distinct by JSON."
 )
 ASSUMPTIONS = [
     "the dask path's eager metadata run (one extra execution of one element, no result entry) is subtracted",
@@ -51,41 +53,95 @@ def body(case, rec):
     rec.nt(len(en) >= 2 or has_vec or any(not p["enabled"] for p in case["params"]))
     spec = {"detector": simple_spec("CCD", row=2, col=2), "pipeline": echo_pipeline(), "readout": {"times": [1.0]},
             "mode": observation_mode_spec(case, rec.tmp)}
-    res = None
+    res, cfg = None, None
     with rec.must_not_raise("valid_space_refused"):
-        res = pyx.run(pyx.build(spec), with_inherited_coords=True)
+        cfg = pyx.build(spec)
+        res = pyx.run(cfg, with_inherited_coords=True)
     if res is None:
         return
+    _compare(case, rec, res, {})
+    # ---- the same Observation object run again after the user changed configured values (part 'rerun')
+    cum = {}
+    for k, edits in enumerate(case.get("reruns") or []):
+        from pyxel.pipelines import Processor
+
+        cum.update(edits)
+
+        rec.cls("rerun")
+        proc = Processor(detector=cfg.detector, pipeline=cfg.pipeline)
+        for key, v in edits.items():
+            proc.set(key, list(v) if isinstance(v, list) else v)
+        P.reset()
+        res = None
+        with rec.must_not_raise("valid_space_refused"):
+            res = pyx.run(cfg, with_inherited_coords=True)
+        if res is None:
+            return
+        _compare(case, rec, res, dict(cum), where=f"run {k + 2} of the same Observation after configuring {cum}: ")
+
+
+def _state(run, edits):
+    s = full_state({})
+    s.update({k: (list(v) if isinstance(v, list) else v) for k, v in edits.items()})
+    s.update({k: (list(v) if isinstance(v, (list, tuple)) else v) for k, v in run.items()})
+    return s
+
+
+def _compare(case, rec, res, edits, where=""):
+    from vprobes import models as P
+
     ref = reference_runs(case)
-    ref_states = [state_tuple(full_state(r)) for r in ref]
+    ref_states = [state_tuple(_state(r, edits)) for r in ref]
     got_states = applied_states(P.ECHO)
     want, got = Counter(ref_states), Counter(got_states)
     if case["dask"]:
         extra = got - want
         rec.check(sum(extra.values()) == 1 and all(k in want for k in extra), "runs_differ_from_requested_space",
-                  lambda: f"dask path: surplus executions {dict(extra)} (exactly one metadata run of a requested element is allowed); missing {dict(want - got)}")
-        rec.check(not (want - got), "runs_differ_from_requested_space", lambda: f"missing runs: {list((want - got))[:3]}")
+                  lambda: f"{where}dask path: surplus executions {dict(extra)} (exactly one metadata run of a requested element is allowed); missing {dict(want - got)}")
+        rec.check(not (want - got), "runs_differ_from_requested_space", lambda: f"{where}missing runs: {list((want - got))[:3]}")
     else:
         rec.check(got == want, "runs_differ_from_requested_space",
-                  lambda: f"{len(got_states)} runs executed, {len(ref_states)} requested; missing {list((want - got))[:2]} extra {list((got - want))[:2]}")
-        rec.check(got_states == ref_states, "runs_not_in_documented_order", lambda: f"first executed {got_states[:2]} first requested {ref_states[:2]}")
+                  lambda: f"{where}{len(got_states)} runs executed, {len(ref_states)} requested; missing {list((want - got))[:2]} extra {list((got - want))[:2]}")
+        rec.check(got_states == ref_states, "runs_not_in_documented_order", lambda: f"{where}first executed {got_states[:2]} first requested {ref_states[:2]}")
     # ---- labels
     da = res["/bucket/pixel"]
     n_entries = int(np.prod([da.sizes[d] for d in da.dims if d not in ("time", "y", "x")]))
-    rec.check(n_entries == len(ref), "number_of_result_entries", f"{n_entries} entries for {len(ref)} requested runs; dims {dict(da.sizes)}")
+    rec.check(n_entries == len(ref), "number_of_result_entries", f"{where}{n_entries} entries for {len(ref)} requested runs; dims {dict(da.sizes)}")
     for n, run in enumerate(ref):
         try:
             sel = select_run(da, case, run, n)
         except (LookupError, KeyError) as exc:
-            rec.fail("label_not_selectable", f"run {n} {run}: {exc!r}"[:300])
+            rec.fail("label_not_selectable", f"{where}run {n} {run}: {exc!r}"[:300])
             continue
         val = np.asarray(sel.values, dtype=float)
-        exp = expected_pixel(full_state(run))
+        exp = expected_pixel(_state(run, edits))
         ok = val.size > 0 and bool(np.allclose(val, exp, rtol=1e-12, atol=1e-9))
-        rec.check(ok, "entry_holds_data_of_another_run", lambda: f"run {n} {run}: labelled entry holds {val.ravel()[:2]}, data made with these values is {exp}")
+        rec.check(ok, "entry_holds_data_of_another_run", lambda: f"{where}run {n} {run}: labelled entry holds {val.ravel()[:2]}, data made with these values is {exp}")
 
 
-PARTS = {"space": body, "k1_sequential_dask": body}
+@st.composite
+def rerun_cases(draw):
+    """A space, plus 1..2 later runs of the same Observation object, each after the user configured other values on detector / pipeline."""
+    case = draw(spaces(max_params=3, max_runs=12))
+    case["reruns"] = []
+    for _ in range(draw(st.integers(1, 2))):
+        edits = {}
+        for key in draw(st.lists(st.sampled_from(KEYS), min_size=1, max_size=3, unique=True)):
+            if key in VECTOR_KEYS:
+                edits[key] = [float(draw(st.integers(0, 9))), float(draw(st.integers(0, 9)))]
+            elif key.endswith("quantum_efficiency"):
+                edits[key] = draw(st.sampled_from([0.0625, 0.375, 0.875]))
+            elif key.endswith("temperature"):
+                edits[key] = draw(st.sampled_from([75.0, 175.0, 275.0]))
+            elif key.endswith("other"):
+                edits[key] = draw(st.sampled_from([0.5, 3.25, 9.5]))
+            else:
+                edits[key] = draw(st.integers(41, 80))
+        case["reruns"].append(edits)
+    return case
+
+
+PARTS = {"space": body, "k1_sequential_dask": body, "rerun": body}
 
 
 def known_key(part, clause, case, detail):
@@ -98,5 +154,6 @@ def known_key(part, clause, case, detail):
 def plan(tier):
     return [
         Part(name="space", kind="gen", strategy=spaces, examples=120 if tier == "quick" else 600),
+        Part(name="rerun", kind="gen", strategy=rerun_cases, examples=40 if tier == "quick" else 300),
         Part(name="k1_sequential_dask", kind="enum", cases=k1_cases, shards=1),
     ]
